@@ -3581,13 +3581,26 @@ class Graph(_protocols.GraphProtocol, Sequence[Node], _display.PrettyPrintable):
         metadata_props: dict[str, str] | None = None,
     ):
         self.name = name
+        nodes = tuple(nodes)
 
         # Private fields that are not to be accessed by any other classes
-        self._inputs = _graph_containers.GraphInputs(self, inputs)
-        self._outputs = _graph_containers.GraphOutputs(self, outputs)
-        self._initializers = _graph_containers.GraphInitializers(
-            self, {initializer.name: initializer for initializer in initializers}
-        )
+        self._inputs = _graph_containers.GraphInputs(self)
+        self._outputs = _graph_containers.GraphOutputs(self)
+        self._initializers = _graph_containers.GraphInitializers(self)
+        try:
+            self._inputs.extend(inputs)
+            self._outputs.extend(outputs)
+            self._initializers.update(
+                {initializer.name: initializer for initializer in initializers}
+            )
+            for node in nodes:
+                self._check_node_not_in_another_graph(node)
+        except Exception:
+            # A rejected construction must not keep the values it has claimed so far
+            self._initializers.clear()
+            self._outputs.clear()
+            self._inputs.clear()
+            raise
         self._doc_string = doc_string
         self._opset_imports = opset_imports or {}
         self._metadata: _metadata.MetadataStore | None = None
